@@ -88,11 +88,15 @@ func (c *Client) GetPeers(amount uint8) ([]PeerAddress, error) {
 	if err := c.SendMessage(msg); err != nil {
 		return nil, err
 	}
-	peers, ok := <-c.sharePeersChan
-	if !ok {
+	// Nothing closes sharePeersChan, so also watch for protocol shutdown: without
+	// it a call that is waiting when the connection ends would block forever and
+	// keep busyMutex, blocking every later call as well
+	select {
+	case peers := <-c.sharePeersChan:
+		return peers, nil
+	case <-c.DoneChan():
 		return nil, protocol.ErrProtocolShuttingDown
 	}
-	return peers, nil
 }
 
 func (c *Client) messageHandler(msg protocol.Message) error {
